@@ -157,9 +157,14 @@ class Interp:
         c = sym.simp(self.heap.cls(sym.r_of(v.t)))
         if z3.is_int_value(c):
             return [self.eng.class_name(c.as_long())]
+        if v.hint and len(v.hint) == 1:
+            return sorted(v.hint)
+        cc = self.run.concretize(c)          # does the path condition force one class?
+        if z3.is_int_value(cc):
+            return [self.eng.class_name(cc.as_long())]
         if v.hint:
             return sorted(v.hint)
-        return sorted(self.eng.node_classes)
+        return sorted(self.eng.all_object_classes)
 
     def narrow(self, v, names, label):
         """fork over groups of classes; `names`: dict group_key -> [class names]; returns chosen key"""
@@ -170,7 +175,7 @@ class Interp:
         feas = []
         for k, cl in groups:
             cond = z3.Or([self.heap.cls(r) == self.eng.class_id(c) for c in cl])
-            if self.run.pos < len(self.run.prefix) or self.run.feasible(cond):
+            if self.run.feasible(cond):        # decided the same way on every re-execution (choice indices refer to this list)
                 feas.append((k, cl, cond))
         if not feas:
             raise PathEnd('no class feasible')
@@ -340,7 +345,7 @@ class Interp:
             return OpaqueV('__dict__', v)
         if name == '__class__':
             return OpaqueV('typeof', v)
-        if name in self.eng.instance_fields and not self.eng.is_descriptor_everywhere(name):
+        if name in self.eng.instance_fields and not self.is_property_of(v, name):
             val = self.heap.get(name, sym.r_of(t))
             if has_default:
                 if self.run.decide(sym.is_undef(val), f'hasattr-{name}'):
@@ -359,6 +364,19 @@ class Interp:
                 return SV(val, hint=frozenset([fh]))
             return SV(val)
         return self.resolve_on_obj(v, name, fr, node)
+
+    def is_property_of(self, v, name):
+        """a property defined by the class (a data descriptor) takes precedence over an instance attribute of that name"""
+        cl = self.classes_of(v)
+        if len(cl) > 12:
+            return False
+        for c in cl:
+            if c not in self.repo.classes:
+                return False
+            r = self.repo.resolve_method(c, name)
+            if r is None or isinstance(r, tuple) or r.kind not in ('property', 'staticproperty'):
+                return False
+        return True
 
     def prim_getattr(self, v, name, fr, node):
         return BuiltinV('str.' + name, bound=v) if True else None
@@ -447,6 +465,11 @@ class Interp:
             k = id(r) if r is not None else None
             groups.setdefault(k, []).append(c)
             found[k] = r
+        if None in groups and len(groups) > 1:
+            # classes without such a member: the access would raise AttributeError there
+            bad = groups.pop(None)
+            r_ = sym.r_of(v.t)
+            self.maybe_raise(z3.Not(z3.Or([self.heap.cls(r_) == self.eng.class_id(c) for c in bad])), 'AttributeError', fr, node, f'.ayns.{name} on non-object of a class without it')
         k = self.narrow(v, groups, f'dispatch-ayns.{name}')
         fi = found[k]
         if fi is None:
